@@ -19,7 +19,7 @@ from concurrent.futures import ThreadPoolExecutor
 from harness import colang2, progs2, tlc, v2corpus
 
 SPEC_DIR = "/verif/specs/colang2"
-FRAGMENT_FEATURES = {"when", "if", "while", "groups", "return", "abort", "vars", "start", "actions", "refs", "activate", "priority", "loop"}
+FRAGMENT_FEATURES = {"when", "if", "while", "groups", "return", "abort", "vars", "start", "actions", "refs", "activate", "priority", "loop", "params"}
 INVARIANTS = ("QueueEmpty", "Parked", "IndexIsScan", "DoneNoHeads",      # C09
               "L1S", "L2S",                                                # C06 (keeper, action life-cycle monitor)
               "C05S",                                                      # C05 (every conflict resolution of the call: winner not beaten, identical co-win, rest stopped)
@@ -49,8 +49,27 @@ DIRECTED = [
     # competing flows: specificity, priority 0.5, a named loop, identical actions, a competitor with a failure handler
     "flow a\n  match E1()\n  start A1Action(x=1)\n  match E3()\n\nflow b\n  match E1(p=1)\n  start A2Action(x=1)\n  match E3()\n\nflow c\n  priority 0.5\n  match E1(p=1)\n  start A1Action(x=2)\n  match E3()\n\n@loop(\"la\")\nflow d\n  match E1()\n  start A2Action(x=2)\n  match E3()\n\nflow main\n  start a\n  start b\n  start c\n  start d\n  match Never()\n",
     "flow a\n  match E1()\n  send Out1()\n  match E2()\n\nflow b\n  match E1()\n  send Out1()\n  match E3()\n\nflow c\n  match E1()\n  when A1Action(x=1)\n    send Out2()\n  or when E2()\n    send Out3()\n\nflow main\n  activate a\n  start b\n  start c\n  match Never()\n",
+    # an activated flow that competes with its activator for the same event: it loses (restart pending) while the activator ends
+    "flow fb\n  match E1()\n  send Out3()\n  match E2()\n\nflow fa\n  activate fb\n  match E1()\n  send Out1()\n\nflow main\n  start fa\n  match E3()\n  match Never()\n",
+    "flow fb $p\n  match E1()\n  send Out3(v=$p)\n\nflow fa $p\n  activate fb(p=1)\n  activate fb(p=2)\n  match E1(p=1) or E2(p=1)\n  send Out1()\n\nflow main\n  start fa 1\n  match E3()\n  match Never()\n",
     "flow c\n  match E1()\n\nflow p\n  start c\n  match E2()\n\nflow main\n  start p as $p\n  match $p.Finished()\n  send Out1()\n  start p\n  match E3()\n  send Out2()\n  match Never()\n",
 ]
+
+
+def _untag(v):
+    """tagged value of the specification -> Python value"""
+    t = v[0]
+    if t == "i":
+        return int(v[1])
+    if t == "s":
+        return v[1]
+    if t == "b":
+        return bool(v[1])
+    if t == "n":
+        return None
+    if t == "f":
+        return float(v[1])
+    return ("?", v)
 
 
 def val(v):
@@ -191,8 +210,11 @@ def _replay_program(k):
             real = [(f.flow_id, f.status.name, [(h.position, h.status.name) for h in f.heads.values()]) for f in s.flow_states.values()]
             spec = [(f["fid"], f["status"], [(h["pos"], h["status"]) for h in f["heads"]]) for f in p["proj"]["flows"] if f["status"] != "GONE"]
             aidx = {u: i + 1 for i, (u, _) in enumerate(created)}
-            rout = [(e["type"], aidx.get(e.get("action_uid"), 0)) for e in s.outgoing_events]
-            sout = [(e["name"], e["act"]) for e in p["proj"]["out"]]
+            # outgoing events: name, action identity, and for plain events the (scalar) arguments as well
+            META = ("type", "uid", "event_created_at", "source_uid", "action_uid")
+            rout = [(e["type"], aidx.get(e.get("action_uid"), 0),
+                     sorted((k, repr(v)) for k, v in e.items() if k not in META) if "action_uid" not in e else []) for e in s.outgoing_events]
+            sout = [(e["name"], e["act"], sorted((a[0], repr(_untag(a[1]))) for a in e["args"])) for e in p["proj"]["out"]]
             ract = sorted((aidx[u], a.name, a.status.name, a.flow_scope_count) for u, a in s.actions.items() if u in aidx)
             sact = sorted((i + 1, a["name"], a["status"], a["scope"]) for i, a in enumerate(p["proj"]["actions"]) if a["status"] != "DELETED")
             # the dispatch index: (instance number, event name) multiset
